@@ -116,6 +116,9 @@ pub(crate) struct LiveEvents<'a> {
     stop_at_doc_end: bool,
     /// Indicates whether a DocumentEnd was seen for the last parsed document.
     seen_doc_end: bool,
+    /// Where the explicit `...` marker of the last ended document stops (1-based line and
+    /// column), if it had one.
+    doc_end_marker_end: Option<(u64, u64)>,
 
     /// Error reference that is checked at the end of parsing.
     error: Rc<RefCell<Option<std::io::Error>>>,
@@ -192,6 +195,7 @@ impl<'a> LiveEvents<'a> {
             per_anchor_expansions: Vec::new(),
             stop_at_doc_end,
             seen_doc_end: false,
+            doc_end_marker_end: None,
 
             error,
         }
@@ -239,6 +243,7 @@ impl<'a> LiveEvents<'a> {
             per_anchor_expansions: Vec::new(),
             stop_at_doc_end,
             seen_doc_end: false,
+            doc_end_marker_end: None,
 
             // Error field is provided but for string, nothing is ever reported
             error: Rc::new(RefCell::new(None)),
@@ -522,10 +527,13 @@ impl<'a> LiveEvents<'a> {
                 Event::DocumentEnd => {
                     // On document end: in single-document mode, mark and stop producing events.
                     self.reset_document_state();
-                    // Only an explicit `...` marker (a non-empty span) ends the document in the
-                    // sense that whatever follows it may be ignored; the implicit end the parser
-                    // reports after a complete root node does not.
-                    self.seen_doc_end = span.end.index() > span.start.index();
+                    self.seen_doc_end = true;
+                    // An explicit `...` marker has a non-empty span. (So has the implicit end the
+                    // parser reports when an unexpected token follows a complete root node, but
+                    // then the error is raised *inside* that span, see
+                    // `trailing_error_may_be_ignored`.)
+                    self.doc_end_marker_end = (span.end.index() > span.start.index())
+                        .then(|| (span.end.line() as u64, span.end.col() as u64 + 1));
                     self.last_location = location;
                     if self.stop_at_doc_end {
                         // One-step lookahead to distinguish multi-doc streams from garbage
@@ -605,6 +613,7 @@ impl<'a> LiveEvents<'a> {
 
         self.total_replayed_events = 0;
         self.seen_doc_end = false;
+        self.doc_end_marker_end = None;
     }
 
     /// Observe the configured budget for a replayed (injected) event.
@@ -768,8 +777,15 @@ impl<'de> Events<'de> for LiveEvents<'de> {
 }
 
 impl<'a> LiveEvents<'a> {
-    pub(crate) fn seen_doc_end(&self) -> bool {
-        self.seen_doc_end
+    /// Whether `e`, raised while probing for content after the document, concerns text that
+    /// follows an explicit `...` end marker - the only trailing garbage that is ignored. The
+    /// implicit end the parser reports after a complete flow / quoted root node does not
+    /// count: there the error sits where that "end" begins.
+    pub(crate) fn trailing_error_may_be_ignored(&self, e: &Error) -> bool {
+        match (self.doc_end_marker_end, e.location()) {
+            (Some(marker_end), Some(loc)) => (loc.line(), loc.column()) >= marker_end,
+            _ => false,
+        }
     }
     pub(crate) fn synthesized_null_emitted(&self) -> bool {
         self.synthesized_null_emitted
